@@ -2,7 +2,13 @@
 
    case  := feat_ws feat_quic en_tcp en_ws en_quic local_peer max_out(0 = none, m+1) ops:[op]
    maddr := n (tag arg)*n        tag 0 ip4 / 1 ip6 (arg = class*65536+id), 2 dns, 3 dns4, 4 dns6,
-                                 5 tcp, 6 udp, 7 ws, 8 wss, 9 quic-v1, 10 p2p, 11 other
+                                 5 tcp, 6 udp, 7 ws, 8 wss, 9 quic-v1, 10 p2p, 11 other,
+                                 12 a concrete IPv4 address (arg = the 32-bit address), 13 a concrete
+                                 IPv6 address s0:s1:0:..:val:..:0 (arg = ((s0*65536+s1)*8+pos)*65536+val,
+                                 val in segment pos of 2..7); their class is computed by IpClass.v.
+                                 Addresses of the ranges that tags 0 / 1 are mapped to (0.0.0.0,
+                                 127.1/16, 10.7/16, 8.8/16, ::, ::1, fd00::7:x, 2001:4860::x) are
+                                 written with tags 0 / 1 only
    op    := 0 peer [maddr] order:[maddr] victims:[maddr]   add_known_address
           | 1 maddr kind victim:[maddr]            update_address_on_dial_failure; kind = the code of the
                                                    DialError variant: outer + 4 * inner + 64 * innermost
@@ -16,6 +22,7 @@
           | 6 n                                    hold n established outbound connections
           | 7 peer outcome tcp:[maddr] ws:[maddr]  dial(peer) with the lists given to open(); failed attempts time out
           | 9 peer outcome errs:[kind] tcp:[maddr] ws:[maddr]   the same, attempt i failing with errs[i mod |errs|]
+          | 14 peer outcome errs:[kind] tcp:[maddr] ws:[maddr] quic:[maddr]   the same with a QUIC transport
           | 8 peer maddr score victim:[maddr]      AddressStore::insert with a raw i32 score (biased by 2^31)
           | 10 maddr res victims:[maddr]           dial_address; res 0 = connection established, k+1 = DialFailure of kind k
           | 11 maddr                               PublicAddresses::add_address
@@ -24,8 +31,10 @@
                                                    appends /p2p/<peer> to every address that does not end in
                                                    a peer id and hands the set to the manager's handle (op 0
                                                    on the prepared addresses)
-   ([x] is a count-prefixed list.) The harness build has the websocket feature compiled in
-   and quic compiled out; cases with other feature flags are not well-formed.
+   ([x] is a count-prefixed list.) The main harness build has the websocket feature compiled in
+   and quic compiled out (feat_quic = 0); the second build (stream `aux`, cargo feature quic) runs
+   the cases with feat_quic = 1, where a probe also reports QuicListener::get_socket_address and
+   dial(peer) episodes carry three lists (tag 14).
 
    Litep2p-level case (first number 2):  2 nk <case as above>
    whose operations are: nk add_known_address operations (Litep2pConfig::known_addresses, in order),
@@ -37,7 +46,7 @@
    trace := 2 listen-set store(peer 0) .. store(peer 7) bad  then one add record per later operation. *)
 From Coq Require Import List NArith ZArith Bool.
 From V.common Require Import Wire.
-From V.C10 Require Import Model.
+From V.C10 Require Import Model IpClass.
 Import ListNotations.
 Open Scope N_scope.
 
@@ -54,6 +63,26 @@ Definition class_of (x : N) : option ipclass :=
   match x with 0 => Some Unspec | 1 => Some Loop | 2 => Some Priv | 3 => Some Glob | _ => None end.
 Definition class_code (c : ipclass) : N :=
   match c with Unspec => 0 | Loop => 1 | Priv => 2 | Glob => 3 end.
+
+(* concrete addresses: the identifier of the component is RAW + the address (IPv4) / RAW + the
+   compact code (IPv6); identifiers below RAW belong to the mapped ranges *)
+Definition RAW : N := 65536.
+Definition raw4_ok (ip : N) : bool :=
+  (ip <? 4294967296) &&
+  negb ((ip =? 0) || ((octet ip 0 =? 127) && (octet ip 1 =? 1)) ||
+        ((octet ip 0 =? 10) && (octet ip 1 =? 7)) || ((octet ip 0 =? 8) && (octet ip 1 =? 8))).
+Definition raw6_s0 (arg : N) : N := arg / 34359738368.               (* 2^35 *)
+Definition raw6_s1 (arg : N) : N := (arg / 524288) mod 65536.        (* 2^19 *)
+Definition raw6_pos (arg : N) : N := (arg / 65536) mod 8.
+Definition raw6_val (arg : N) : N := arg mod 65536.
+Definition raw6_ip (arg : N) : N :=
+  raw6_s0 arg * 2 ^ 112 + raw6_s1 arg * 2 ^ 96 + raw6_val arg * 2 ^ (16 * (7 - raw6_pos arg)).
+Definition raw6_ok (arg : N) : bool :=
+  (arg <? 2251799813685248) &&                                        (* 2^51 *)
+  (if raw6_val arg =? 0 then raw6_pos arg =? 0 else 2 <=? raw6_pos arg) &&
+  negb ((raw6_ip arg =? 0) || (raw6_ip arg =? 1) ||
+        ((raw6_s0 arg =? 64768) && (raw6_pos arg =? 6) && (raw6_val arg =? 7)) ||
+        ((raw6_s0 arg =? 8193) && (raw6_s1 arg =? 18528))).
 
 (* canonical components only: the harness maps them injectively to real protocols *)
 Definition dec_comp (tag arg : N) : option comp :=
@@ -79,13 +108,15 @@ Definition dec_comp (tag arg : N) : option comp :=
   | 9 => if arg =? 0 then Some QuicV1 else None
   | 10 => if arg <? NPEERS then Some (P2p arg) else None
   | 11 => if arg <? NOTHER then Some (Other arg) else None
+  | 12 => if raw4_ok arg then Some (Ip4 (classify4 arg) (RAW + arg)) else None
+  | 13 => if raw6_ok arg then Some (Ip6 (classify6 (raw6_ip arg)) (RAW + arg)) else None
   | _ => None
   end.
 
 Definition enc_comp (x : comp) : list N :=
   match x with
-  | Ip4 c i => [0; class_code c * 65536 + i]
-  | Ip6 c i => [1; class_code c * 65536 + i]
+  | Ip4 c i => if i <? RAW then [0; class_code c * 65536 + i] else [12; i - RAW]
+  | Ip6 c i => if i <? RAW then [1; class_code c * 65536 + i] else [13; i - RAW]
   | Dns i => [2; i]
   | Dns4 i => [3; i]
   | Dns6 i => [4; i]
@@ -144,10 +175,13 @@ Definition p_op : parser op :=
   | 6 => let* n := pN in if n <? 9 then pret (OHold (N.to_nat n)) else pfail
   | 7 => let* p := p_peer in let* oc := pN in
          let* t := plistb 1000 p_maddr in let* w := plistb 1000 p_maddr in
-         if oc <? 1000 then pret (ODial p (N.to_nat oc) [] t w) else pfail
+         if oc <? 1000 then pret (ODial p (N.to_nat oc) [] t w []) else pfail
   | 9 => let* p := p_peer in let* oc := pN in let* es := plistb 1000 p_err in
          let* t := plistb 1000 p_maddr in let* w := plistb 1000 p_maddr in
-         if oc <? 1000 then pret (ODial p (N.to_nat oc) es t w) else pfail
+         if oc <? 1000 then pret (ODial p (N.to_nat oc) es t w []) else pfail
+  | 14 => let* p := p_peer in let* oc := pN in let* es := plistb 1000 p_err in
+          let* t := plistb 1000 p_maddr in let* w := plistb 1000 p_maddr in let* q := plistb 1000 p_maddr in
+          if oc <? 1000 then pret (ODial p (N.to_nat oc) es t w q) else pfail
   | 8 => let* p := p_peer in let* a := p_maddr in let* sc := pN in let* v := p_victim in
          if sc <? 4294967296 then pret (OInsert p a (dec_score sc) v) else pfail
   | 10 => let* a := p_maddr in let* res := pN in let* vs := plistb 3 p_maddr in
@@ -172,7 +206,7 @@ Definition p_case : parser (cfg * list op) :=
   let* lp := p_peer in
   let* mo := pN in
   let* ops := plistb 100000 p_op in
-  if fw && negb fq && negb eq && (mo <? 100)
+  if fw && implb eq fq && (mo <? 100)
   then pret (mkCfg fw fq et ew eq lp (match dec_opt mo with Some m => Some (N.to_nat m) | None => None end), ops)
   else pfail.
 
@@ -182,9 +216,9 @@ Definition decode_case (l : list N) : option (cfg * list op) := pall p_case l.
 
 (* a sort key that is injective on canonical addresses; numerically, shorter addresses first *)
 Definition comp_digit (x : comp) : N :=
-  match enc_comp x with [tag; arg] => tag * 1048576 + arg + 1 | _ => 0 end.
+  match enc_comp x with [tag; arg] => tag * 4503599627370496 + arg + 1 | _ => 0 end.   (* 2^52 *)
 Definition maddr_key (a : maddr) : N :=
-  fold_left (fun acc x => acc * 16777216 + comp_digit x) a 0.
+  fold_left (fun acc x => acc * 72057594037927936 + comp_digit x) a 0.                   (* 2^56 *)
 
 Definition enc_entry (x : maddr * Z) : list N := enc_maddr (fst x) ++ [enc_score (snd x)].
 Definition dump (s : store) : list N :=
@@ -193,7 +227,9 @@ Definition dump (s : store) : list N :=
 
 Definition enc_host (h : host) : list N :=
   match h with
-  | HIp (v6, c, i) => [if v6 then 1 else 0; class_code c * 65536 + i]
+  | HIp (v6, c, i) =>
+      if i <? RAW then [if v6 then 1 else 0; class_code c * 65536 + i]
+      else [if v6 then 13 else 12; i - RAW]
   | HDns kind i => [match kind with 0 => 2 | 4 => 3 | _ => 4 end; i]
   end.
 Definition enc_parsed (r : option parsed) : list N :=
@@ -210,7 +246,7 @@ Definition op_peer (o : op) : option N :=
   | OAdd p _ _ _ => Some p
   | ODialFailure a _ _ => match last a (Other 0) with P2p p => Some p | _ => None end
   | OEstablished p _ _ _ => Some p
-  | ODial p _ _ _ _ => Some p
+  | ODial p _ _ _ _ _ => Some p
   | OInsert p _ _ _ => Some p
   | ODialAddr a _ _ => match last a (Other 0) with P2p p => Some p | _ => None end
   | _ => None
@@ -237,7 +273,9 @@ Definition enc_out (c : cfg) (o : op) (st' : state) (r : out) : list N :=
   | RIns (Some x) => [1; 1; b2n (is_bad x)] ++ d
   | RAddrs None => [3; 9]
   | RAddrs (Some l) => [3; 0] ++ enc_list enc_entry l
-  | RProbe sup rt ptcp pws _ _ => [4; b2n sup; transport_code rt] ++ enc_parsed ptcp ++ enc_parsed pws
+  | RProbe sup rt ptcp pws pquic _ =>
+      [4; b2n sup; transport_code rt] ++ enc_parsed ptcp ++ enc_parsed pws ++
+      (if feat_quic c then enc_parsed pquic else [])
   | RListen => [5] ++ dump_addrs (dedup (listen_set c (lst st')))
   | RHold n => [6; N.of_nat n]
   | RDial DLimit => [7; 1]
@@ -245,7 +283,7 @@ Definition enc_out (c : cfg) (o : op) (st' : state) (r : out) : list N :=
   | RDial DNoAddress => [7; 3]
   | RDial DUnroutable => [7; 8]
   | RDial DBadChoice => [7; 9]
-  | RDial (DTried t w) => [7; 0] ++ enc_list enc_entry t ++ enc_list enc_entry w ++ d
+  | RDial (DTried t w q) => [7; 0] ++ enc_list enc_entry t ++ enc_list enc_entry w ++ enc_list enc_entry q ++ d
   | RDialAddr v bad => [10] ++ verdict_code v ++ [b2n bad] ++ d
   | RPub r =>
       [11; match r with PubAdded true => 0 | PubAdded false => 1 | PubEmpty => 2 | PubDifferent => 3 end]
@@ -364,6 +402,8 @@ Definition p_host : parser host :=
   | 2 => pret (HDns 0 arg)
   | 3 => pret (HDns 4 arg)
   | 4 => pret (HDns 6 arg)
+  | 12 => pret (HIp (false, classify4 arg, RAW + arg))
+  | 13 => pret (HIp (true, classify6 (raw6_ip arg), RAW + arg))
   | _ => pfail
   end.
 Definition p_parsed : parser (option parsed) :=
@@ -376,16 +416,16 @@ Inductive obs :=
 | BIns0 (s : option store)
 | BIns (s : store)
 | BAddrs (l : option store)
-| BProbe (sup : bool) (rt : N) (ptcp pws : option parsed)
+| BProbe (sup : bool) (rt : N) (ptcp pws pquic : option parsed)
 | BListen (l : list maddr)
 | BHold (n : nat)
 | BDialCode (code : N)
-| BDialTried (t w s : store)
+| BDialTried (t w q s : store)
 | BDialAddr (code : N) (s : option store)
 | BPub (code : N) (l : list maddr)
 | BPubRemoved (b : bool) (l : list maddr).
 
-Definition p_obs : parser obs :=
+Definition p_obs (c : cfg) : parser obs :=
   let* tag := pN in
   match tag with
   | 0 => let* n := pN in let* _ := pN in let* s := p_store in pret (BAdd n s)
@@ -394,12 +434,14 @@ Definition p_obs : parser obs :=
   | 3 => let* f := pN in
          if f =? 0 then let* l := p_store in pret (BAddrs (Some l)) else pret (BAddrs None)
   | 4 => let* sup := pBool in let* rt := pN in let* a := p_parsed in let* b := p_parsed in
-         pret (BProbe sup rt a b)
+         let* q := (if feat_quic c then p_parsed else pret None) in
+         pret (BProbe sup rt a b q)
   | 5 => let* l := plistb 100000 p_maddr_t in pret (BListen l)
   | 6 => let* n := pN in if n <? 1000 then pret (BHold (N.to_nat n)) else pfail
   | 7 => let* code := pN in
          if code =? 0 then
-           let* t := p_store in let* w := p_store in let* s := p_store in pret (BDialTried t w s)
+           let* t := p_store in let* w := p_store in let* q := p_store in let* s := p_store in
+           pret (BDialTried t w q s)
          else pret (BDialCode code)
   | 10 => let* code := pN in
           let* _ := (if code =? 0 then (let* _ := pN in pN) else pret 0) in
@@ -412,8 +454,8 @@ Definition p_obs : parser obs :=
 
 (* the dump that follows a dial_address record when the address ends in /p2p, and an inbound
    connection's record *)
-Definition p_obs_for (o : op) : parser obs :=
-  let* ob := p_obs in
+Definition p_obs_for (c : cfg) (o : op) : parser obs :=
+  let* ob := p_obs c in
   match ob, op_peer o with
   | BDialAddr code _, Some _ => let* s := p_store in pret (BDialAddr code (Some s))
   | BIns0 _, Some _ => let* s := p_store in pret (BIns0 (Some s))
@@ -566,7 +608,7 @@ Definition step_ok (c : cfg) (k : scorecfg) (st : ostate) (o : op) (ob : obs) : 
   | ODialAddrs peer limit obsin, BAddrs (Some l) =>
       if list_eqb maddr_eqb (map fst l) obsin && addresses_ok limit (get_or_empty peer b) l
       then Some st else None
-  | OProbe a, BProbe sup rt ptcp pws =>
+  | OProbe a, BProbe sup rt ptcp pws pquic =>
       (* accepted by supported_transport => the transport it is routed to is enabled and its own
          parser accepts it, with the peer of the trailing /p2p and a specified host *)
       if sup then
@@ -575,6 +617,7 @@ Definition step_ok (c : cfg) (k : scorecfg) (st : ostate) (o : op) (ob : obs) : 
             match rt with
             | 0 => if enabled c TTcp && parsed_ok ptcp q then Some st else None
             | 1 => if enabled c TWs && parsed_ok pws q then Some st else None
+            | 2 => if enabled c TQuic && parsed_ok pquic q then Some st else None
             | _ => None
             end
         | _ => None
@@ -588,7 +631,7 @@ Definition step_ok (c : cfg) (k : scorecfg) (st : ostate) (o : op) (ob : obs) : 
       (* the outbound limit is never exceeded *)
       if match max_out c with Some m => (n <=? m)%nat | None => true end
       then Some (mkO b (o_lst st) n (o_pubs st)) else None
-  | ODial peer _ _ _ _, BDialCode code =>
+  | ODial peer _ _ _ _ _, BDialCode code =>
       let s := get_or_empty peer b in
       match code with
       | 1 => (* refused for the limit only when there is no free outbound capacity *)
@@ -602,24 +645,32 @@ Definition step_ok (c : cfg) (k : scorecfg) (st : ostate) (o : op) (ob : obs) : 
              then Some st else None
       | _ => None
       end
-  | ODial peer outcome _ tcp ws, BDialTried t w s' =>
+  | ODial peer outcome _ tcp ws qu, BDialTried t w q s' =>
       let s := get_or_empty peer b in
       match free_capacity c (mkState b (o_lst st) (o_held st) (o_pubs st)) (length s) with
       | None => None
       | Some limit =>
-          let n := (length tcp + length ws)%nat in
+          let n := (length tcp + length ws + length qu)%nat in
           let j := match outcome with O => O | S j0 => (j0 mod n)%nat end in
           let '(won, failed) :=
             match outcome with
-            | O => (None, tcp ++ ws)
+            | O => (None, tcp ++ ws ++ qu)
             | S _ => if (j <? length tcp)%nat then (nth_error tcp j, firstn j tcp)
-                     else (nth_error ws (j - length tcp), firstn (j - length tcp) ws)
+                     else if (j <? length tcp + length ws)%nat
+                          then (nth_error ws (j - length tcp), firstn (j - length tcp) ws)
+                          else (nth_error qu (j - length tcp - length ws),
+                                firstn (j - length tcp - length ws) qu)
             end in
           if negb (peer =? local_peer c) &&
              list_eqb maddr_eqb (map fst t) tcp && list_eqb maddr_eqb (map fst w) ws &&
+             list_eqb maddr_eqb (map fst q) qu &&
+             (* every address is handed to the enabled transport it is routed to *)
+             forallb (fun a => enabled c TTcp && match route c a with TTcp => true | _ => false end) tcp &&
+             forallb (fun a => enabled c TWs && match route c a with TWs => true | _ => false end) ws &&
+             forallb (fun a => enabled c TQuic && match route c a with TQuic => true | _ => false end) qu &&
              (* non-increasing score order, limited by the free outbound capacity *)
-             addresses_ok limit s (merge_desc t w) &&
-             nonincreasing (map snd t) && nonincreasing (map snd w) &&
+             addresses_ok limit s (merge_desc (merge_desc t w) q) &&
+             nonincreasing (map snd t) && nonincreasing (map snd w) && nonincreasing (map snd q) &&
              store_ok k s' && outcome_ok k s s' won failed
           then upd (put peer s' b) else None
       end
@@ -669,7 +720,7 @@ Fixpoint steps_ok (c : cfg) (k : scorecfg) (st : ostate) (h : list op) : parser 
   match h with
   | [] => pret true
   | o :: t =>
-      let* ob := p_obs_for o in
+      let* ob := p_obs_for c o in
       match step_ok c k st o ob with
       | Some st' => steps_ok c k st' t
       | None => pret false
